@@ -324,16 +324,16 @@ func init() {
 		if ctx.Tier == "thorough" {
 			bound = 2
 		}
-		for _, sc := range scenarios(ctx.Tier) {
-			// the scenarios with two clients also under the second base policy (newest goroutine first:
-			// a freshly started generation gets to run before the reloading goroutine continues)
-			engine.ExploreS(ctx, sc, engine.SConfig{Bound: bound, BothPolicies: strings.Contains(sc.Name, "[two-clients]"), Shard: ctx.Shard, NShards: ctx.NShards, Deadline: ctx.Deadline})
-		}
 		// the hand-over itself at component level, where the window is a few scheduling points
 		// wide: the old generation's handle closes while the new generation's handle accepts;
 		// every connection / datagram must be handled by exactly one of them (none lost, none twice)
 		for _, sc := range handover() {
 			engine.ExploreS(ctx, sc, engine.SConfig{BothPolicies: true, Bound: bound + 2, Shard: ctx.Shard, NShards: ctx.NShards, Deadline: ctx.Deadline})
+		}
+		for _, sc := range scenarios(ctx.Tier) {
+			// the scenarios with two clients also under the second base policy (newest goroutine first:
+			// a freshly started generation gets to run before the reloading goroutine continues)
+			engine.ExploreS(ctx, sc, engine.SConfig{Bound: bound, BothPolicies: strings.Contains(sc.Name, "[two-clients]"), Shard: ctx.Shard, NShards: ctx.NShards, Deadline: ctx.Deadline})
 		}
 	})
 	hk.Replayers["C11"] = func(ctx *engine.Ctx, rp engine.Replay) []*engine.Finding {
